@@ -273,8 +273,8 @@ _DEFAULT_AST_FIELD = {kls: field for field, classes in [  # builds to {Module: '
 _re_dump_line_tail     = re.compile(r'\s* ( \#.*$ | \\$ | ; (?: \s* (?: \#.*$ | \\$ ) )? )', re.VERBOSE)
 _re_one_space_or_end   = re.compile(r'\s|$')
 
-_re_par_open_alnums    = re.compile(rf'[{pat_alnum}.][(][{pat_alnum}]')
-_re_par_close_alnums   = re.compile(rf'[{pat_alnum}.][)][{pat_alnum}]')
+_re_alnum              = re.compile(rf'[{pat_alnum}]')
+_re_alnum_or_dot       = re.compile(rf'[{pat_alnum}.]')
 _re_delim_open_alnums  = re.compile(rf'[{pat_alnum}.][({{[][{pat_alnum}]')
 _re_delim_close_alnums = re.compile(rf'[{pat_alnum}.][)}}\]][{pat_alnum}]')
 
@@ -1740,13 +1740,31 @@ def _unparenthesize_grouping(self: fst.FST, shared: bool | None = True, *, star_
         self._put_src(None, pln, pcol, ln, col, False)
 
     else:  # in all other case we need to make sure par is not separating us from an alphanumeric on either side, and if so then just replace that par with a space
-        if pend_col >= 2 and _re_par_close_alnums.match(l := lines[pend_ln], pend_col - 2):
-            lines[pend_ln] = bistr(l[:pend_col - 1] + ' ' + l[pend_col:])
+        if (end_col and pend_col < len(l := lines[pend_ln]) and _re_alnum.match(l, pend_col)
+            and _re_alnum_or_dot.match(lines[end_ln], end_col - 1)
+        ):  # what follows the closing par(s) would merge with the end of self, the last par becomes a space
+            if pend_ln != end_ln or pend_col - 1 != end_col:  # more than one par or something between, all but the last par go
+                self._put_src(None, end_ln, end_col, pend_ln, pend_col - 1, True, self)
+
+            lines[end_ln] = bistr((l := lines[end_ln])[:end_col] + ' ' + l[end_col + 1:])
+
+            if (parent := self.parent) and not self.next():  # parents which ended at the closing par now end where self ends
+                parent._set_end_pos(end_ln + 1, (c := lines[end_ln].c2b(end_col)), end_ln + 1, c + 1)
+
         else:
             self._put_src(None, end_ln, end_col, pend_ln, pend_col, True, self)
 
-        if pcol and _re_par_open_alnums.match(l := lines[pln], pcol - 1):
-            lines[pln] = bistr(l[:pcol] + ' ' + l[pcol + 1:])
+        if (pcol and col < len(lines[ln]) and _re_alnum.match(lines[ln], col)
+            and _re_alnum_or_dot.match(lines[pln], pcol - 1)
+        ):  # what precedes the opening par(s) would merge with the start of self, the first par becomes a space
+            if pln != ln or pcol + 1 != col:  # more than one par or something between, all but the first par go
+                self._put_src(None, pln, pcol + 1, ln, col, False)
+
+            lines[pln] = bistr((l := lines[pln])[:pcol] + ' ' + l[pcol + 1:])
+
+            if (parent := self.parent) and not self.prev():  # parents which started at the opening par now start where self starts
+                parent._set_start_pos(pln + 1, (c := lines[pln].c2b(pcol)) + 1, pln + 1, c)
+
         else:
             self._put_src(None, pln, pcol, ln, col, False)
 
